@@ -169,6 +169,7 @@ type treeW struct {
 	cmpMag   bool
 	order    int // 0 natural, 1 reversed, 2 coarse (k/4 classes)
 	P        int // number of positions; fills use [2, P-2)
+	off      int // added to every key: 0 or tKeyOff
 	slack    int // positions per key of the largest fill
 	stride   int // step of monotone fills
 	maxN     int
@@ -219,7 +220,30 @@ func (w *treeW) violate(prop, sig, format string, args ...any) {
 }
 
 // key <-> position. Positions follow the collection's order; one position per equivalence class.
+// tKeyOff is added to every key the world hands to the library (a multiple of 4, so that the coarse
+// order's classes are unchanged): the zero value of the key type is then never a key of the run, and
+// a comparator call that receives it - or any other key the collection was never given - is the
+// library comparing garbage (a vacated slot), which a user's comparator need not survive (think of
+// pointer keys).
+//
+// Half the runs use offset 0 instead: there the zero value IS a key of the run, which is what exposes
+// a vacated slot being taken for that key; the foreign-key oracle is off in those runs.
+const tKeyOff = 1000
+
+func (w *treeW) foreign(a, b int) {
+	if w.off == 0 {
+		return
+	}
+	for _, k := range [2]int{a, b} {
+		if k < tKeyOff-8 || k >= tKeyOff+4*(w.P+4) {
+			w.violate(w.r.Focus, "comparator-called-with-foreign-key", "during %s the library called the comparator with key %d, which the collection was never given (the keys of this run are >= %d; 0 is the zero value of a vacated slot)", w.inCall, k, tKeyOff)
+			return
+		}
+	}
+}
+
 func (w *treeW) posOf(k int) int {
+	k -= w.off
 	switch w.order {
 	case 0:
 		return k + 2
@@ -239,11 +263,11 @@ func (w *treeW) repOf(k int) int {
 func (w *treeW) keyOf(pos, rep int) int {
 	switch w.order {
 	case 0:
-		return pos - 2
+		return w.off + pos - 2
 	case 1:
-		return w.P - 3 - pos
+		return w.off + w.P - 3 - pos
 	}
-	return (pos-2)*4 + rep
+	return w.off + (pos-2)*4 + rep
 }
 
 // the comparators handed to the library (instrumented: they count calls and stop a runaway call)
@@ -288,6 +312,7 @@ func (w *treeW) tick() {
 func (w *treeW) less(a, b int) bool {
 	w.tick()
 	w.note(a, b)
+	w.foreign(a, b)
 	switch w.order {
 	case 0:
 		return a < b
@@ -300,6 +325,7 @@ func (w *treeW) less(a, b int) bool {
 func (w *treeW) cmp(a, b int) int {
 	w.tick()
 	w.note(a, b)
+	w.foreign(a, b)
 	var x, y int
 	switch w.order {
 	case 0:
@@ -355,6 +381,10 @@ var tBoundariesQuick = []int{16, 15, 31, 127, 128, 255, 256, 400, 1023}
 var tBoundariesThorough = []int{256, 255, 1023, 1024, 2047, 2048, 4095, 6000}
 
 func treeWorld(r *R) {
+	if (r.Focus == "C01" || r.Focus == "C02") && r.Choose(12, "odd-keys") == 11 {
+		treeOddKeys(r)
+		return
+	}
 	w := &treeW{r: r, tr: r.Trace, cmpLimit: 1 << 16}
 	w.isSet = r.Choose(2, "set") == 1
 	w.fromLess = r.Choose(2, "cmp") == 0
@@ -370,6 +400,7 @@ func treeWorld(r *R) {
 	w.slack = []int{2, 1, 4}[r.Choose(3, "slack")]
 	w.stride = 1
 	w.P = w.maxN*w.slack + r.Choose(3, "extra") + 4
+	w.off = tKeyOff * r.Choose(2, "key-offset")
 	if r.Tier == "thorough" {
 		w.budget = []int{3000, 12000, 50000}[r.Choose(3, "budget")]
 		if w.budget < 4*w.maxN {
@@ -545,7 +576,7 @@ func (w *treeW) pickPos() int {
 		case 3:
 			return min(w.P-1, w.m.pred(w.P)+1)
 		case 4:
-			return w.posOf(0)
+			return w.posOf(w.off)
 		default:
 			return 1
 		}
@@ -1281,6 +1312,15 @@ func (w *treeW) doScan(h int, useIterate bool, lo, hi tBound, rev bool, limit in
 		if !ok {
 			if more {
 				w.violate("C01", "range/missing-key/"+dir, "range [%v, %v] ended after %d items; key %d is inside the bounds and was not yielded", lo, hi, count, w.keyOf(e, 0))
+				break
+			}
+			// an exhausted iterator stays exhausted (iterator.Iterator's contract), also without any
+			// modification in between
+			w.begin("range-next-after-end")
+			_, _, again := next()
+			w.end()
+			if again {
+				w.violate("C01", "range/item-after-exhaustion/"+dir, "range [%v, %v] yielded another item after it had reported exhaustion", lo, hi)
 			}
 			break
 		}
